@@ -152,6 +152,9 @@ def run_case(case):
                 out.append(("C06:numeric-fault", "%s: raised %r" % (where, raised)))
             if raised is None and isinstance(val, int):
                 out.append(("C06:numeric-fault", "%s: integer %r reported although no clean frame was received" % (where, val)))
+            if raised is None and val == "MASK":
+                out.append(("C06:numeric-fault", "%s: 'MASK' (the meaning of a clean answer 255) reported although no clean frame "
+                            "was received" % where))
     elif kind == "enum":
         en = r_cls.enumerator
         if clean:
